@@ -23,7 +23,30 @@ if ! $GO build $MODFLAG -tags verif -o $BIN ./cmd/check 2>/verif/out/build.$$.lo
 fi
 rm -f /verif/out/build.$$.log
 case "$ID" in C08|C13) export GODEBUG=clobberfree=1 ;; esac
-$BIN -prop "$ID" -tier "$TIER" "$@"
-rc=$?
-rm -f $BIN /verif/out/alt.$$.mod /verif/out/alt.$$.sum
+LOG=/verif/out/run.$$.log
+$BIN -prop "$ID" -tier "$TIER" "$@" 2>&1 | tee $LOG
+rc=${PIPESTATUS[0]}
+# The library starts goroutines of its own (ParOr, ParAnd, the BSI executors); a panic in one of them cannot be
+# recovered by the check and ends the process (exit 2, no VIOLATION line). If the process died of a panic or a fatal
+# runtime error whose first frame is library code, and it dies the same way when run again, that is a violation of
+# the property being checked (the call did not return a result); the crash output is the replay artefact.
+crashed_in_library() {
+  grep -qE '^(panic:|fatal error:)' "$1" || return 1
+  awk '/^goroutine [0-9]+ \[running\]/{f=1;next} f&&/^[^ \t]/{print;exit}' "$1" | grep -q 'github.com/RoaringBitmap/roaring/v2'
+}
+if [ "$rc" = "2" ] && [ $# -eq 0 ] && crashed_in_library $LOG; then
+  $BIN -prop "$ID" -tier "$TIER" > /verif/out/run.$$.again.log 2>&1
+  if [ "$?" = "2" ] && crashed_in_library /verif/out/run.$$.again.log; then
+    mkdir -p /verif/out/replays
+    CR=/verif/out/replays/$ID-crash-$$.txt
+    { echo "check: scripts/check.sh $ID $TIER  (the process died inside library code; it did so twice in a row)"; grep -m1 -E '^(panic:|fatal error:)' $LOG; awk '/^goroutine [0-9]+ \[running\]/{f=1} f{print} f&&/^$/{exit}' $LOG | head -40; } > $CR
+    echo "  the check process died inside library code: $(grep -m1 -E '^(panic:|fatal error:)' $LOG)"
+    echo "VIOLATION property=$ID replay=$CR"
+    rc=1
+  else
+    echo "HARNESS-ERROR the check process died once and not when run again"
+  fi
+  rm -f /verif/out/run.$$.again.log
+fi
+rm -f $BIN $LOG /verif/out/alt.$$.mod /verif/out/alt.$$.sum
 exit $rc
